@@ -40,7 +40,6 @@ _PENDING = "no check built (see DESIGN.md)"
 NOT_APPLICABLE = {
     "C03": "asymptotic convergence rate over unbounded float trajectories: needs whole multi-iteration solve runs (one iteration of the trivial game is a 23M-variable formula) and an induction over T; proof-assistant territory, not bounded solving (DESIGN.md C03)",
     "C04": "probabilistic statement over thousands of iterations; with draws symbolic the solver quantifies over adversarial draw sequences, for which the statement is false by design (DESIGN.md C04)",
-    "C01": "the evaluator (src/regret.rs: expected, optimal_deviations, next_infoset_search) walks the tree with explicit Vec stacks; CBMC's symbolic execution did not get through even `expected` on a 7-node tree in 10 minutes (symbolic Vec lengths turn every push/pop into a case split over all slots; 600 s, 72 loop unwindings, no solver call), and a MIR->SMT encoding of these nested data-dependent loops was not within reach; measured in DESIGN.md section 2",
     "C17": "depends on which byte strings serde_json / gambit-parser (nom, big rationals) reject and on process exit status and stream contents; symbolic execution of those parsers over a symbolic buffer is far beyond reach of Kani here (DESIGN.md C17)",
 }
 for _p in [f"C{i:02d}" for i in range(1, 20)]:
@@ -561,13 +560,50 @@ REGISTRY["C11"] = {
                    "a revisited chance infoset is compared after summing and dividing, what is passed down (context, this player's previous infoset updated for the children, weight/child pairing) "
                    "and what is recorded for a new infoset. The MIR is dumped from /repo's current tree on every run.",
     "assumptions": ["rustc's MIR dump is the program that is compiled", "containers, iterators and the recursive calls are uninterpreted: that the tables return what was inserted (compact.rs, HashMap) is outside",
-                    "one invocation only: whole-tree facts (the two documented-contract gaps F7/F8 in DESIGN.md: a forgotten own action, one label with one action here and two there) are NOT decided",
-                    "payoff finiteness (Terminal arm) is not checked by the constructor at all and is not claimed"],
+                    "one invocation only: that the per-node facts add up to the documented class of whole trees is an induction argument, not a query",
+                    "std / indexmap containers and iterators behave as documented (IndexMap keeps insertion order, entry() finds equal keys)"],
     "parts": [_ctor],
+    "harnesses": [
+        H("c11_builder_index_allocation", f"{LIB}::compact", "thorough", functions=["compact::Builder::{new,entry,contains,into_iter}", "compact::VacantEntry::insert", "compact::OccupiedEntry::get"],
+          stubs=[_MAPS], playback=True, bounds="three lookups with symbolic keys in {0,1,2}; unwind 5",
+          role="insertion-ordered index allocation of the infoset table: new key -> number of keys before it; revisited key -> index and value of its first insertion; iteration in index order"),
+    ],
 }
 MANIFEST_TEXT["C11"] = {
+    "engine": "mirsmt+kani",
+    "technique": "MIR-to-SMT symbolic execution of one invocation of Game::init_recurse and of the helpers it relies on (per-node decision table), decided by z3; thorough tier adds a Kani/CBMC harness on the compact table",
+    "text": "Partial: for every path through one invocation of the constructor's recursive step the solver / path analysis shows that a chance weight is kept exactly when it is positive and finite (all f64), that each error kind is returned only in its documented situation and a node is accepted only after every rule that concerns that node alone was established (empty chance / player nodes, weights, probabilities equal after normalisation on a revisit, actions equal, actions distinct on the first visit, same previous infoset of the same player), that failing subtrees propagate, and that the children are built with the right context (history carrying infoset AND action). The crate-local helpers the step relies on (ChanceInfosetData::new, PlayerInfosetBuilder::new, PlayerInfosetData::new, Chance::new, PlayerNum::ind / ind_mut, compact Builder / OptBuilder entry, insert, get, contains, and Game::from_root's set-up) are each executed on their own and shown to be the plain constructors, projections and table operations assumed. Whole-tree consequences (that these per-node rules add up to the documented class: induction over the tree, an argument) are not claimed.",
+    "note": "Level 'other'. Per-node step only; Game::from_root as a whole could not be encoded (Kani: drop glue and recursion, DESIGN.md section 2). A finding is confirmed natively by building 92 small valid / singly-invalid trees through Game::from_root (replay crate, c11). Three defects found this way were repaired (F7, F8, F11).",
+}
+
+
+# ---------------------------------------------------------------------------------------------
+# E2 for the evaluator: regret() and one iteration of each work-list loop (Kani could not carry the Vec stacks)
+def _eval(prop, tier):
+    import eval_check
+    r = eval_check.run(prop, tier)
+    for f in r["findings"]:
+        f.native_kind = "c01"
+    return r
+
+
+REGISTRY["C01"] = {
+    "level": "other",
+    "explanation": "Symbolic execution of rustc's MIR of src/regret.rs: `regret` (acyclic) and ONE iteration, from an arbitrary state (arbitrary popped (node, reach), accumulator, tables), of the "
+                   "work-list loops of `expected`, `next_infoset_search` and of the reach-collection loop of `optimal_deviations` (inner for-loops unrolled <= 2 children; Vec, iterators, zip and the "
+                   "infoset tables uninterpreted). Decided per step: a terminal adds reach x payoff (sign by deviating player); a chance node schedules every outcome with probability x reach from "
+                   "the node's chance infoset; an opponent / acting node schedules its actions with (that player's probability at the node's infoset) x reach and z3 shows an action is skipped only if "
+                   "its probability is not positive (every f64); an own node contributes reach x the value resolved for its infoset (search) or is recorded with its reach under its infoset, counted as "
+                   "pending for its previous infoset, children scheduled with the same reach (collection); initial state and return value; regret() searches each player's best response over that "
+                   "player's infosets against the other player's strategy and z3 shows regret_i = max(best_i -/+ utility, 0). The MIR is dumped from /repo's current tree on every run.",
+    "assumptions": ["rustc's MIR dump is the program that is compiled", "Vec / iterator / zip / table accessors behave as documented (uninterpreted)",
+                    "that the per-step recurrences add up to the exact expected value and best response on whole trees is an induction argument (needs perfect recall, which C11 establishes per node), not a query",
+                    "the leaves-first resolution loop of optimal_deviations (ordering by pending counts, normalisation by total reach) is NOT covered"],
+    "parts": [_eval],
+}
+MANIFEST_TEXT["C01"] = {
     "engine": "mirsmt",
-    "technique": "MIR-to-SMT symbolic execution of one invocation of Game::init_recurse (per-node decision table), decided by z3",
-    "text": "Partial: for every path through one invocation of the constructor's recursive step the solver / path analysis shows that a chance weight is kept exactly when it is positive and finite (all f64), that each error kind is returned only in its documented situation and a node is accepted only after every rule that concerns that node alone was established (empty chance / player nodes, weights, probabilities equal after normalisation on a revisit, actions equal, actions distinct on the first visit, same previous infoset of the same player), that failing subtrees propagate, and that the children are built with the right context. Whole-tree consequences (that these per-node rules add up to the documented class, including the two gaps F7/F8) are not claimed.",
-    "note": "Level 'other'. Per-node step only; Game::from_root as a whole could not be encoded (Kani: drop glue and recursion, DESIGN.md section 2). A finding is confirmed natively by building 48 small valid / singly-invalid trees through Game::from_root (replay crate, c11).",
+    "technique": "MIR-to-SMT symbolic execution of regret() and of one iteration of each work-list loop of the evaluator, decided by z3",
+    "text": "Partial: for every path through one iteration of the evaluator's three work-list loops (arbitrary popped node and state) the recurrences of the expected value and of the best-response search are the textbook ones (terminal, chance, own and opponent nodes; which tables; which weights; zero-probability actions the only ones skipped), and regret() combines them as max(best response - utility, 0) for each player with the right tables. The leaves-first resolution loop (pending counts, division by the total reach) and the whole-tree exactness statement are not claimed.",
+    "note": "Level 'other'. A finding is confirmed natively by comparing Strategies::get_info with an independent evaluation (recursion for the utility, enumeration of all pure strategies for the best response) on three imperfect-information games x 40 profiles (replay crate, c01).",
 }
